@@ -14,7 +14,7 @@ CONSTANT Enforce
 
 Files == {"secret", "base/a", "base/a.gz", "base/b", "base/sub/a", "base/sub/c.gz", "base/...", "base/..a",
           "base/a..", "base/.gz", "base/sub/.gz", "base/....gz", "base/b.gz/x", "base/sub/...",
-          "base/sub/a...gz", "base/a...gz"}
+          "base/sub/a...gz", "base/a...gz", "base/a.gz.gz", "base/sub/c.gz.gz"}
 Dirs == {"", "base", "base/sub", "base/b.gz"}
 Nodes == Files \cup Dirs
 Parent == [d \in Dirs |-> CASE d = "" -> "" [] d = "base" -> "" [] OTHER -> "base"]
